@@ -78,7 +78,9 @@ func runGCS(c *fw.Ctx, gc gcsCase, checkAll bool, tag func(*GOp) string) (string
 	defer w.Close()
 	for i := range gc.Ops {
 		last := i == len(gc.Ops)-1
-		check := (checkAll && i >= gc.CheckFrom) || last
+		// the state is also observed BEFORE the last request (in the same instance): observation - request - observation is
+		// the history in which something an observation left behind (a cache of resolved metadata, a pooled buffer) shows
+		check := (checkAll && i >= gc.CheckFrom) || last || (i == len(gc.Ops)-2 && i >= gc.CheckFrom)
 		m, cl := w.Step(&gc.Ops[i], check)
 		if m != "" {
 			return m, fmt.Sprintf("%s:%s", cl, tag(&gc.Ops[i])), 0
